@@ -16,7 +16,7 @@ func cmdSelftest(args []string) int {
 	return 2
 }
 
-var classRe = regexp.MustCompile(`/(SAFE|PRE|INV|POST|FRAME|OWN|LOCK|TRACE|TABLE|LEMMA|TERM|BIND|VACUITY)#?`)
+var classRe = regexp.MustCompile(`/(SAFE|PRE|INV|POST|FRAME|OWN|LOCK|TRACE|TABLE|LEMMA|TERM|BIND|VACUITY|READS)#?`)
 
 // cmdReplay re-decides the single obligation named in a replay file against
 // the current working tree of /repo: exit 1 (with a VIOLATION line) when it is
